@@ -58,6 +58,24 @@ def run(tier, seed):
         inputs.append("".join(rng.choice(frags + ALPHABET) for _ in range(rng.randrange(2, 14))))
     for s in corpus.sources():
         inputs.append(s["src"])
+    # texts along the paths of the lexer's mode automaton (spec/LexGen.tla, the generator of C06): they reach string,
+    # template, format-option, raw-string and nested-comment modes with line breaks of every kind inside them
+    import re as _re
+    lexgen_states = 0
+    seen = set(inputs)
+    for st, d in (("sq", 3), ("dq", 2), ("tmpl", 2), ("fmt", 3), ("tmplsq", 2), ("raw", 3 if quick else 4), ("cm", 3 if quick else 4), ("code", 2)):
+        r = common.run_tlc("LexGen", "LexGen.cfg", workers=8, env={"START": st, "DEPTH": d}, timeout=1500, coverage=False, tag="c09_lexgen_" + st, xmx="6g")
+        if r.rc != 0:
+            raise common.ToolError("LexGen.tla (%s) failed:\n%s" % (st, r.stdout[-1500:]))
+        lexgen_states += r.distinct
+        for v in common.tlc_values(r, "TEXTS"):
+            for x in v:
+                for key in ("cut", "closed"):
+                    t = _re.sub(r"U\+([0-9A-F]{4,6});", lambda m: chr(int(m.group(1), 16)), "".join(x[key]))
+                    if t not in seen:
+                        seen.add(t)
+                        inputs.append(t)
+    n_lexgen = len(inputs) - n_exh - 2 * (3000 if quick else 60000) - len(corpus.sources())
     jobs = [{"id": i, "src": s} for i, s in enumerate(inputs)]
     res = common.kv_parallel("lex", jobs, per_job_timeout=30)
     ok_records = []
@@ -78,8 +96,11 @@ def run(tier, seed):
         "samples": [{"input": inputs[5000], "tokens": [t["k"] for t in ok_records[5000]["toks"]]}],
         "evaluations": len(inputs), "distinct_nontrivial": len(set(inputs)),
         "rule": "every string of length <= %d over the %d-symbol alphabet %s (%d strings, exhaustive), %d random strings of length 5..40, "
-                "%d strings of mode-reaching fragments, and the corpus; each token stream validated against Lexer.tla up to the first "
-                "Error token" % (maxlen, len(ALPHABET), json.dumps(ALPHABET, ensure_ascii=False), n_exh, 3000 if quick else 60000, 3000 if quick else 60000),
+                "%d strings of mode-reaching fragments, %d texts along the paths of the lexer's mode automaton (LexGen.tla: string, template, "
+                "format-option, raw-string and nested-comment modes with LF, CRLF and CR inside them), and the corpus; each token stream "
+                "validated against Lexer.tla up to the first Error token" % (maxlen, len(ALPHABET), json.dumps(ALPHABET, ensure_ascii=False), n_exh,
+                                                                           3000 if quick else 60000, 3000 if quick else 60000, n_lexgen),
+        "lexgen_texts": n_lexgen, "lexgen_states": lexgen_states,
         "tokens_validated": ntok, "exhaustive_strings": n_exh, "exhaustive": True,
     }
     rep.assumptions = ["a line break is '\\n' (so CRLF is one break)", "the unit of columns is not fixed by the property: checked are continuity, restart at zero after a break, monotonicity within a line",
